@@ -52,11 +52,30 @@ def child_strategy(depth=0):
     return st.one_of(txt, txt, small_table, inner)
 
 
+def balanced_title():
+    """Titles with as many zero-width as double-width characters (the cell length equals the character count although no cut position is safe),
+    usually longer than the panel has room for: decomposed accents / variation selectors next to CJK / emoji."""
+    unit = st.one_of(st.sampled_from(GC.NARROW_ASCII), st.sampled_from(GC.NARROW_ASCII), st.just(" "))
+    def build(chars, wides, zeros, order):
+        out = list(chars)
+        # wide characters towards the front, zero-width ones towards the back (or the other way round): a cut in between unbalances the kept part
+        k = min(len(wides), len(zeros))
+        front, back = (wides[:k], zeros[:k]) if order else (zeros[:k], wides[:k])
+        half = max(1, len(out) // 2)
+        for i, c in enumerate(front):
+            out.insert(min(len(out), (i * 2) % half), c)
+        for i, c in enumerate(back):
+            out.insert(max(1, len(out) - (i * 2) % half), c)
+        t = "".join(out).strip()
+        return t if t else "T"
+    return st.builds(build, st.lists(unit, min_size=3, max_size=24), st.lists(st.sampled_from(GC.WIDE), min_size=1, max_size=3), st.lists(st.sampled_from(GC.ZERO), min_size=1, max_size=3), st.booleans())
+
+
 def frame_strategy(depth=0):
     child = child_strategy(depth)
     return st.one_of(
         st.builds(lambda c, b, t, ta, ex, p, w, tj: {"k": "panel", "child": c, "box": b, "title": t, "title_align": ta, "expand": ex, "padding": p, "width": w, "title_justify": tj},
-                  child, st.sampled_from(GT.BOXES), st.one_of(st.none(), st.none(), st.sampled_from(["T", "title", "a longer title here", GC.WIDE[0] * 3, "a\tb"])), st.sampled_from(["left", "center", "right"]),
+                  child, st.sampled_from(GT.BOXES), st.one_of(st.none(), st.none(), st.sampled_from(["T", "title", "a longer title here", GC.WIDE[0] * 3, "a\tb"]), balanced_title()), st.sampled_from(["left", "center", "right"]),
                   st.booleans(), GT.pad_strategy(), st.one_of(st.none(), st.none(), st.integers(8, 60)), st.sampled_from([None, None, "left", "center", "right", "full"])),
         st.builds(lambda c, p, ex: {"k": "padding", "child": c, "pad": p, "expand": ex}, child, GT.pad_strategy(), st.booleans()),
         st.builds(lambda c, a, p, w: {"k": "align", "child": c, "align": a, "pad": p, "width": w}, child, st.sampled_from(["left", "center", "right"]), st.booleans(), st.one_of(st.none(), st.none(), st.integers(2, 40))),
